@@ -37,7 +37,7 @@ fn token_fixed(_t: &mut Tokens, _a: SocketAddrV4) -> [u8; 4] {
 
 fn small_server(cap: usize, allow: bool) -> Server {
     // 40 random bytes for the two token secrets: symbolic
-    let secrets: [u8; 40] = kani::any();
+    let secrets: [u8; 40] = kani::env();
     rnd::preload(&secrets);
     Server::new(ServerSettings {
         max_info_hashes: cap,
@@ -427,7 +427,7 @@ fn c04_o6_capacity_one_eviction() {
 #[kani::unwind(26)]
 fn c03_o1_put_immutable() {
     clock::set(0);
-    let digests: [[u8; 20]; 3] = kani::any();
+    let digests: [[u8; 20]; 3] = kani::env();
     uf::arm(digests);
     let mut server = small_server(1, true);
     let rt = RoutingTable::new(Id::from(ME));
@@ -731,7 +731,7 @@ fn c03_o7_size_boundaries() {
 fn c15_o3b_token_lifetime() {
     clock::set(0);
     let mut server = small_server(1, true); // secrets drawn at time 0
-    let fresh: [u8; 20] = kani::any();
+    let fresh: [u8; 20] = kani::env();
     rnd::preload(&fresh);
     let rt = RoutingTable::new(Id::from(ME));
     let from = SocketAddrV4::new([10, 0, 0, 7].into(), 6881);
@@ -787,7 +787,7 @@ fn c15_o3b_token_lifetime() {
 fn c15_o3c_token_expires_under_any_traffic() {
     clock::set(0);
     let mut server = small_server(1, true);
-    let fresh: [u8; 60] = kani::any();
+    let fresh: [u8; 60] = kani::env();
     rnd::preload(&fresh);
     let s0 = server.tokens.kani_secrets().0;
     // the fresh secrets drawn by later rotations differ from the issuing one
